@@ -451,8 +451,9 @@ theorem plm_inv (g90e : Bool) (inch : α) (cfg : Config) (s : FState α) (phys :
       | some v => simp at hm'
     subst hfz
     have hfr := processNonMove_frame s1 cmd dE hs1
-    obtain ⟨o1, o2⟩ := processNonMove_outs s1 cmd dE
-    generalize T.processNonMove s1 cmd dE = rr at *
+    rw [← nonMoveBody_fst s1 cmd dE (cur s.position.e)] at hfr
+    obtain ⟨o1, o2⟩ := nonMoveBody_outs s1 cmd dE (cur s.position.e)
+    generalize T.nonMoveBody s1 cmd dE (cur s.position.e) = rr at *
     obtain ⟨s3, c3⟩ := rr
     simp only at hfr o1 o2 ⊢
     have hphys : XYZeq (phys.execOuts g90e inch c3).pos phys.pos := by
